@@ -99,6 +99,9 @@ pub fn install_quiet_panic_hook() {
             "<non-string panic payload>".to_string()
         };
         let loc = info.location().map(|l| format!("{}:{}", l.file(), l.line())).unwrap_or_default();
+        if std::env::var_os("VERIF_DEBUG_PANIC").is_some() {
+            eprintln!("panic: {} @ {}\n{}", msg, loc, std::backtrace::Backtrace::force_capture());
+        }
         LAST_PANIC.with(|p| *p.borrow_mut() = format!("{} @ {}", msg, loc));
     }));
 }
@@ -201,7 +204,9 @@ impl Session {
 
 impl Drop for Session {
     fn drop(&mut self) {
-        if self.poisoned {
+        // never run library destructors while unwinding from a panic inside the library: its RefCells may still
+        // be borrowed and a second panic would abort the process
+        if self.poisoned || std::thread::panicking() {
             for f in self.files.drain(..) {
                 std::mem::forget(f);
             }
